@@ -191,3 +191,118 @@ REGISTRY.update({
     "C14": (check_c14, "model_checking"),
     "C15": (check_c15, "fault_enumeration"),
 })
+
+
+# --------------------------------------------------------------------------------------------------
+# C17 concurrency
+# --------------------------------------------------------------------------------------------------
+def tlc_behaviours(module, mcname, wd, consts_defs, cfg_lines, tag="B", workers=4, timeout=900):
+    """Runs TLC on a generated MC module that prints one <<"B", json>> line per complete behaviour."""
+    open(os.path.join(wd, mcname + ".tla"), "w").write("---- MODULE %s ----\nEXTENDS %s, Json\n%s\n====\n" % (mcname, module, consts_defs))
+    cfg = os.path.join(wd, mcname + ".cfg")
+    open(cfg, "w").write("\n".join(cfg_lines) + "\n")
+    out = []
+    r = run_tlc(mcname, cfg, wd, workers=workers, timeout=timeout, on_line=lambda t, o: out.append(o) if t == tag else None)
+    return r, out
+
+
+def check_c17(rep):
+    quick = rep.tier == "quick"
+    wd = workdir("C17")
+    pset = "bgv_8_17_40,40"
+    behs = []
+    stats = rep.cov.setdefault("runs", [])
+    # ---- key-power cache: all interleavings for every combination of requested powers
+    combos = []
+    if quick:
+        combos = [("dec", n) for n in ([1, 2], [2, 1], [2, 2], [3, 2], [2, 3], [3, 3], [1, 3], [2, 3, 2], [3, 2, 1])] + [("kg", [2, 2]), ("kg", [2, 2, 2])]
+    else:
+        import itertools
+        combos = [("dec", list(c)) for k in (2, 3) for c in itertools.product([1, 2, 3], repeat=k)] + [("kg", [2, 2]), ("kg", [2, 2, 2])]
+        combos += [("dec", [3, 2, 3, 2])]
+    for kind, need in combos:
+        name = "MC_KC_%s_%s" % (kind, "".join(map(str, need)))
+        defs = "MC_Need == %s\nMC_Threads == 1..%d\nEmit == AllDone => PrintT(<<\"B\", ToJson([need |-> MC_Need, steps |-> hist])>>)" % (tla_lit(need), len(need))
+        cfgl = ["SPECIFICATION Spec", "CONSTANTS", "  Threads <- MC_Threads", "  Need <- MC_Need", "  InitLen = 1", "  Recheck = TRUE",
+                "INVARIANTS UseSeesEnough Progress Emit", "PROPERTIES Monotone Terminates", "CHECK_DEADLOCK FALSE"]
+        r, out = tlc_behaviours("KeyCache", name, wd, defs, cfgl)
+        if r["violated"]:
+            raise ToolError("KeyCache.tla violates %s for %s" % (r["violated"], need))
+        tlc_must_pass(r, name)
+        if not quick and len(out) > 4000:
+            random.Random(rep.seed).shuffle(out)
+            out = out[:4000]
+        for o in out:
+            behs.append({"model": "keycache", "kind": kind, "need": o["need"], "steps": o["steps"]})
+        stats.append({"model": "KeyCache", "kind": kind, "need": need, "states": r["distinct"], "interleavings": len(out)})
+        rep.cov["states"] = rep.cov.get("states", 0) + r["distinct"]
+        rep.cov["transitions"] = rep.cov.get("transitions", 0) + r["generated"]
+    # the deviation "install without re-check" must be refuted by TLC
+    defs = "MC_Need == <<3, 2>>\nMC_Threads == 1..2"
+    r, _ = tlc_behaviours("KeyCache", "MC_KC_norecheck", wd, defs, ["SPECIFICATION Spec", "CONSTANTS", "  Threads <- MC_Threads", "  Need <- MC_Need", "  InitLen = 1", "  Recheck = FALSE",
+                                                                    "INVARIANTS UseSeesEnough", "PROPERTIES Monotone", "CHECK_DEADLOCK FALSE"])
+    rep.cov["norecheck_deviation_refuted_by_tlc"] = r["violated"] is not None
+    if r["violated"] is None:
+        raise ToolError("sanity: KeyCache without re-check should violate Monotone/UseSeesEnough")
+    # ---- Galois table cache: key generation for element lists; each element makes k = 2 apply calls (2 key-level primes)
+    gcombos = [[[3], [3]], [[3], [9]], [[3, 15], [15]], [[3], [3], [3]]] if quick else [[[3], [3]], [[3], [9]], [[3, 15], [15]], [[3], [3], [3]], [[3, 9], [9, 3]], [[3], [9], [3]]]
+    for elts in gcombos:
+        calls = [[(g - 1) // 2 for g in th for _ in range(2)] for th in elts]
+        name = "MC_GC_" + "_".join("".join(map(str, th)) for th in elts)
+        slots = sorted({c for th in calls for c in th})
+        defs = ("MC_Calls == %s\nMC_Threads == 1..%d\nMC_Slots == %s\nEmit == AllDone => PrintT(<<\"B\", ToJson([steps |-> hist])>>)" %
+                (tla_lit(calls), len(calls), "{" + ", ".join(map(str, slots)) + "}"))
+        cfgl = ["SPECIFICATION Spec", "CONSTANTS", "  Threads <- MC_Threads", "  Calls <- MC_Calls", "  Slots <- MC_Slots",
+                "INVARIANTS UseSeesTable Progress Emit", "PROPERTIES NeverCleared Terminates", "CHECK_DEADLOCK FALSE"]
+        r, out = tlc_behaviours("GaloisCache", name, wd, defs, cfgl)
+        if r["violated"]:
+            raise ToolError("GaloisCache.tla violates %s" % r["violated"])
+        tlc_must_pass(r, name)
+        rng = random.Random(rep.seed)
+        cap = 300 if quick else 3000
+        if len(out) > cap:
+            rng.shuffle(out)
+            out = out[:cap]
+        for o in out:
+            behs.append({"model": "galois", "elts": elts, "steps": o["steps"]})
+        stats.append({"model": "GaloisCache", "elts": elts, "states": r["distinct"], "interleavings_replayed": len(out)})
+        rep.cov["states"] = rep.cov.get("states", 0) + r["distinct"]
+        rep.cov["transitions"] = rep.cov.get("transitions", 0) + r["generated"]
+    for i, b in enumerate(behs):
+        b["id"] = i
+    results = run_workers_parallel(["c17", "replay", pset], behs, wd, "sched", nproc=12, deadline=30.0)
+    nv = 0
+    for beh, res in results:
+        if res["status"] == "ok":
+            continue
+        if res["status"] == "tool_error":
+            raise ToolError(str(res))
+        nv += 1
+        sig = {"model": beh["model"], "kind": res.get("kind", res["status"]), "workload": beh.get("kind", "galois")}
+        rep.violation(sig, {"pset": pset, "behaviour": beh, "result": res, "cmd": None})
+    # ---- free-running workloads validated against Trace_Cache.tla
+    nruns = 150 if quick else 3000
+    raw = hcv(["c17", "free", pset, str(nruns), str(rep.seed)], timeout=1200).splitlines()
+    bad, st = arith.validate(raw, wd, module="Trace_Cache", chunks=2 if quick else 8)
+    for b in bad:
+        run = json.loads(raw[b[0] - 1])
+        rep.violation({"model": "free-run", "kind": run["kind"], "results_ok": run["results_ok"]}, {"pset": pset, "run": run})
+    rep.cov["states"] += st["distinct"]
+    rep.cov["transitions"] += st["generated"]
+    rep.cov["traces_validated_against_impl"] = len(behs) + len(raw)
+    rep.cov["evaluations"] = len(behs) + len(raw)
+    rep.cov["distinct_nontrivial"] = len({json.dumps([b.get("need"), b.get("elts"), [s["t"] for s in b["steps"]]]) for b in behs})
+    rep.cov["forced_schedules"] = len(behs)
+    rep.cov["free_runs"] = len(raw)
+    rep.cov["exhaustive"] = quick is False
+    rep.cov["rule"] = ("forced schedules = every interleaving of the lock phases that TLC finds in KeyCache.tla / GaloisCache.tla for the listed thread counts and requested "
+                       "powers / Galois elements (sampled above 4000 per combination), each replayed on real threads parked at the feature-guarded yield points, comparing the "
+                       "yield site and the cache state reported under the lock after every step and the results with sequential ones; free runs = 2..4 OS-scheduled threads "
+                       "whose lock-ordered events are validated against Trace_Cache.tla; distinct = distinct (workload, thread order) schedules")
+    rep.samples += [{"model": b["model"], "need": b.get("need"), "elts": b.get("elts"), "order": [s["t"] for s in b["steps"]]} for b in (behs[0], behs[len(behs) // 2], behs[-1])]
+    rep.assumptions += ["each lock phase is atomic (the hooks only yield where no lock is held); data races inside unsafe blocks are below this granularity",
+                        "a thread that does not reach its next yield point within 10 s is reported as blocked"]
+    log("[C17] %d forced schedules, %d mismatches; %d free runs, %d rejected" % (len(behs), nv, len(raw), len(bad)))
+
+
+REGISTRY.update({"C17": (check_c17, "model_checking")})
